@@ -290,6 +290,50 @@ def run_history(h, fresh_oracle=True):
             if ra != rc:
                 final.append({'pool': j, 'at_point': k, 'used_value': ra, 'fresh_value': rc})
                 break
+    # ... and so does every derivative object: a used Partial / Derivative / Differential answers at(q) with the same
+    # KIND of outcome (a number, DomainError, CoordinateMissing) as a freshly built copy brought to the same
+    # symbolic state (values are compared elsewhere: the late numeric and the symbolic path differ by rounding)
+    def _kind(o, q):
+        try:
+            o.at(q)
+            return 'VAL'
+        except DomainError:
+            return 'DOMERR'
+        except CoordinateMissing:
+            return 'COORD'
+        except Exception as ex:  # noqa: BLE001
+            return 'PYERR ' + type(ex).__name__
+    try:
+        for op in h['ops']:
+            if op[0] in ('mkpartial', 'mkpartialobj', 'mkderiv', 'mkdiff'):
+                try:
+                    w3.do(op)
+                except Exception:  # noqa: BLE001
+                    pass
+        for sname, used in w.slots.items():
+            copy = w3.slots.get(sname)
+            if used is None or copy is None:
+                continue
+            part_u = used._partial if isinstance(used, Derivative) else used
+            part_c = copy._partial if isinstance(copy, Derivative) else copy
+            if isinstance(part_u, Partial) and part_u._synthetic_partial is not None and part_c._synthetic_partial is None:
+                CATCH.hit = False
+                part_c.as_expression()
+                if CATCH.hit:
+                    continue          # the step budget was hit: KF-BUDGET territory, judged by C09
+            found = False
+            for kp, qp in enumerate(w3.points):
+                for k, q in enumerate(w3.points):
+                    _kind(used, qp)           # whatever was asked before (here: the same object at another point) ...
+                    ku, kc = _kind(used, q), _kind(copy, q)      # ... the answer at q is that of a fresh copy
+                    if ku != kc and not ku.startswith('PYERR') and not kc.startswith('PYERR'):
+                        final.append({'slot': sname, 'after_point': kp, 'at_point': k, 'used_object': ku, 'fresh_copy': kc})
+                        found = True
+                        break
+                if found:
+                    break
+    except OverflowError:
+        pass
     return {'outs': outs, 'fresh': fresh, 'mutations': mutations, 'final': final}
 
 
@@ -305,13 +349,31 @@ class CaseRange(BaseException):
     an exact intermediate outside the double range, which every property excludes"""
 
 
+EARLY = 5.0          # first look at the stack after this many seconds
+_STAGE = {'second': False, 'rest': 0.0}
+
+
 def _alarm(_sig, frm):
     f = frm
     while f is not None:
         if f.f_code.co_filename.endswith('math_functions.py'):
             raise CaseRange()
         f = f.f_back
+    if not _STAGE['second'] and _STAGE['rest'] > 0:
+        import signal as _signal
+        _STAGE['second'] = True
+        _signal.setitimer(_signal.ITIMER_REAL, _STAGE['rest'])
+        return
     raise CaseTimeout()
+
+
+def arm(limit):
+    """two-stage alarm: after EARLY seconds look whether the time is going into exact integer arithmetic of
+    math_functions (then it is a range case at once); otherwise let the case run up to the full limit"""
+    import signal as _signal
+    _STAGE['second'] = False
+    _STAGE['rest'] = max(limit - EARLY, 0.0)
+    _signal.setitimer(_signal.ITIMER_REAL, min(EARLY, limit))
 
 
 def main():
@@ -337,7 +399,7 @@ def main():
         t_case = _time.time()
         try:
             h = json.loads(line)
-            signal.setitimer(signal.ITIMER_REAL, limit)
+            arm(limit)
             try:
                 res = run_history(h, fresh_oracle=h.get('fresh_oracle', True))
             finally:
